@@ -24,8 +24,31 @@ fn key_into(buf: &mut [u8], mut i: u64, radix: u64, digits: &[u8]) {
     }
 }
 
+/// discards everything but accepts only `cap` bytes per call (a legal io::Write)
+struct TrickleSink {
+    cap: usize,
+}
+impl io::Write for TrickleSink {
+    fn write(&mut self, buf: &[u8]) -> io::Result<usize> {
+        Ok(buf.len().min(self.cap))
+    }
+    fn flush(&mut self) -> io::Result<()> {
+        Ok(())
+    }
+}
+
+#[derive(Clone, Copy, PartialEq)]
+enum Shape {
+    /// fixed-width digits
+    Fixed,
+    /// groups of keys in which every key is a proper prefix of the next: d, d/, d/x, d/xy (then the next d)
+    PrefixChain,
+}
+
 #[derive(Clone, Copy)]
 struct Cfg {
+    shape: Shape,
+    trickle: Option<usize>,
     n: u64,
     radix: u64,
     len: usize,
@@ -36,14 +59,20 @@ struct Cfg {
 }
 
 fn measure(c: Cfg) -> Result<allocmeter::Reading, String> {
+    match c.trickle {
+        None => measure_on(c, io::sink()),
+        Some(cap) => measure_on(c, TrickleSink { cap }),
+    }
+}
+
+fn measure_on<W: io::Write>(c: Cfg, sink: W) -> Result<allocmeter::Reading, String> {
     let digits: Vec<u8> = if c.radix <= 10 { (b'0'..=b'9').collect() } else { b"0123456789ABCDEFGHIJKLMNOPQRSTUVWXYZabcdefghijklmnopqrstuvwxyz{|".to_vec() };
-    let mut buf = vec![0u8; c.len];
-    // section 1: construction. Hook H1 builds through `new_type` (which allocates the default table) and then
-    // swaps the table, so for hook geometries only what is RETAINED after construction counts, not the transient.
+    let mut buf = vec![0u8; c.len + 3];
+    // section 1: construction (what is RETAINED afterwards counts as steady state)
     let sec = allocmeter::start();
     let b = match c.geom {
-        None => Builder::new_type(io::sink(), 0).map_err(|e| e.to_string()),
-        Some((r, cl)) => Builder::verif_new_with_cache(io::sink(), 0, r, cl).map_err(|e| e.to_string()),
+        None => Builder::new_type(sink, 0).map_err(|e| e.to_string()),
+        Some((r, cl)) => Builder::verif_new_with_cache(sink, 0, r, cl).map_err(|e| e.to_string()),
     };
     let r1 = sec.stop();
     let mut b = b?;
@@ -51,11 +80,23 @@ fn measure(c: Cfg) -> Result<allocmeter::Reading, String> {
     let sec = allocmeter::start();
     let res: Result<(), String> = (|| {
         for i in 0..c.n {
-            key_into(&mut buf, i * c.stride, c.radix, &digits);
+            let klen = match c.shape {
+                Shape::Fixed => {
+                    key_into(&mut buf[..c.len], i * c.stride, c.radix, &digits);
+                    c.len
+                }
+                Shape::PrefixChain => {
+                    key_into(&mut buf[..c.len], (i / 4) * c.stride, c.radix, &digits);
+                    buf[c.len] = b'/';
+                    buf[c.len + 1] = b'x';
+                    buf[c.len + 2] = b'y';
+                    c.len + (i % 4) as usize
+                }
+            };
             if c.set {
-                b.add(&buf).map_err(|e| e.to_string())?;
+                b.add(&buf[..klen]).map_err(|e| e.to_string())?;
             } else {
-                b.insert(&buf, mix(i) >> 20).map_err(|e| e.to_string())?;
+                b.insert(&buf[..klen], mix(i) >> 20).map_err(|e| e.to_string())?;
             }
         }
         b.finish().map_err(|e| e.to_string())
@@ -72,24 +113,40 @@ pub fn run(ctx: &Ctx) -> i32 {
     let mut ev = Ev::new();
     let mut table: Vec<J> = vec![];
     let scales: Vec<u64> = ctx.tier.pick(vec![100_000, 1_000_000, 10_000_000], vec![100_000, 1_000_000, 10_000_000, 30_000_000]);
-    let mut series: Vec<(&str, u64, usize, bool, Option<(usize, usize)>, u64)> = vec![("decimal-map", 10, 10, false, None, 1), ("decimal-set", 10, 10, true, None, 7)];
+    // (name, radix, key length, set?, geometry, stride, shape, trickle sink cap)
+    let mut series: Vec<(&str, u64, usize, bool, Option<(usize, usize)>, u64, Shape, Option<usize>)> = vec![
+        ("decimal-map", 10, 10, false, None, 1, Shape::Fixed, None),
+        ("decimal-set", 10, 10, true, None, 7, Shape::Fixed, None),
+        ("prefix-chain-map", 10, 10, false, None, 3, Shape::PrefixChain, None),
+        ("prefix-chain-set", 10, 10, true, None, 1, Shape::PrefixChain, None),
+        ("decimal-map-on-1-byte-per-call-sink", 10, 10, false, None, 1, Shape::Fixed, Some(1)),
+        ("prefix-chain-map-on-3-bytes-per-call-sink", 10, 10, false, Some((100, 2)), 1, Shape::PrefixChain, Some(3)),
+        ("prefix-chain-map-geom-100x2", 10, 10, false, Some((100, 2)), 1, Shape::PrefixChain, None),
+        ("prefix-chain-set-geom-7x2", 10, 10, true, Some((7, 2)), 1, Shape::PrefixChain, None),
+        ("decimal-map-geom-1x1-on-1-byte-per-call-sink", 10, 10, false, Some((1, 1)), 1, Shape::Fixed, Some(1)),
+    ];
     if !ctx.quick() {
-        series.push(("base64-len40-map", 64, 40, false, None, 0x1_0000_0001));
-        series.push(("decimal-map-geom-100x2", 10, 10, false, Some((100, 2)), 1));
-        series.push(("decimal-map-geom-50000x4", 10, 10, false, Some((50_000, 4)), 3));
-        series.push(("decimal-set-geom-1x1", 10, 10, true, Some((1, 1)), 1));
+        series.push(("base64-len40-map", 64, 40, false, None, 0x1_0000_0001, Shape::Fixed, None));
+        series.push(("decimal-map-geom-100x2", 10, 10, false, Some((100, 2)), 1, Shape::Fixed, None));
+        series.push(("decimal-map-geom-50000x4", 10, 10, false, Some((50_000, 4)), 3, Shape::Fixed, None));
+        series.push(("decimal-set-geom-1x1", 10, 10, true, Some((1, 1)), 1, Shape::Fixed, None));
     } else {
-        series.push(("decimal-map-geom-100x2", 10, 10, false, Some((100, 2)), 1));
+        series.push(("decimal-map-geom-100x2", 10, 10, false, Some((100, 2)), 1, Shape::Fixed, None));
     }
-    for (name, radix, len, set, geom, stride) in series {
+    for (name, radix, len, set, geom, stride, shape, trickle) in series {
         let (rows, cols) = geom.unwrap_or((10_000, 2));
-        let k = bound(rows, cols, radix as usize, len);
+        let k = bound(rows, cols, radix as usize + 1, len + 3);
+        // the slope test is only sound once every cache cell has been used: small geometries saturate within 10^4 keys,
+        // the default 20000-cell table keeps filling up to ~10^7 keys (there only the a-priori bound is judged)
+        let small_cache = rows * cols <= 1000;
         let mut prev: Option<(u64, u64)> = None;
         for &n in &scales {
             if name.starts_with("base64") && n > 10_000_000 {
                 continue;
             }
-            let cfg = Cfg { n, radix, len, set, geom, stride };
+            // trickle sinks make every byte a write call: keep those series one scale smaller
+            let n = if trickle.is_some() { n / 10 } else { n };
+            let cfg = Cfg { shape, trickle, n, radix, len, set, geom, stride };
             let seed_n = n + (ctx.seed % 1000); // the seed perturbs N slightly; the claim is about every N
             let cfg = Cfg { n: seed_n, ..cfg };
             ev.eval(Some(crate::rng::fnv_u64(crate::rng::fnv(name.as_bytes()), seed_n)));
@@ -107,11 +164,12 @@ pub fn run(ctx: &Ctx) -> i32 {
                         ev.violate("retained-after-finish", format!("{} N={}: {} bytes still live after finish()", name, seed_n, r.net), descr.clone());
                     }
                     if let Some((pn, pp)) = prev {
+                        let saturated = small_cache && pn >= 100_000;
                         // once the cache is saturated the peak must not move with N
-                        if pn >= 1_000_000 && r.peak > pp + pp / 50 + 4096 {
+                        if saturated && r.peak > pp + pp / 50 + 4096 {
                             ev.violate("grows-with-n", format!("{}: peak live heap grows with the number of keys: {} bytes at N={} but {} bytes at N={}", name, pp, pn, r.peak, seed_n), descr.clone());
                         }
-                        if pn >= 1_000_000 {
+                        if saturated {
                             ev.count("scale-pairs-compared");
                         }
                     }
@@ -128,9 +186,9 @@ pub fn run(ctx: &Ctx) -> i32 {
         ev,
         Spec {
             level: "exploration",
-            rule: "one evaluation = one complete build of N keys streamed to io::sink() with the counting global allocator armed (single-threaded, process otherwise quiet): peak live heap above the pre-build baseline must stay below the a-priori constant rows*cols*(48 + 2*F*24) + pow2(L+2)*(72 + 2*F*24) + 64 KiB (geometry, fan-out F, key length L; never fitted to measurements), must not grow by more than 2% + 4 KiB from N to the next scale once N >= 10^6, and nothing may stay live after finish(); series: decimal keys (F=10, L=10) as map with pseudo-random values (unbounded number of distinct nodes) and as set, at N ~ 10^5, 10^6, 10^7 (thorough 3*10^7), cache geometries through hook H1 (100x2; thorough also 50000x4 and 1x1) and base-64 keys of length 40; non-trivial = every measurement; distinct = (series, N)",
+            rule: "one evaluation = one complete build of N keys streamed to io::sink() with the counting global allocator armed (single-threaded, process otherwise quiet): peak live heap above the pre-build baseline must stay below the a-priori constant rows*cols*(48 + 2*F*24) + pow2(L+2)*(72 + 2*F*24) + 64 KiB (geometry, fan-out F, key length L; never fitted to measurements), must not grow by more than 2% + 4 KiB from one scale to the next in every series whose cache is saturated from the start (geometries with <= 1000 cells; the default 20000-cell table keeps filling up to ~10^7 keys, so there only the constant bound is judged), and nothing may stay live after finish(); series: decimal keys (F=10, L=10) as map with pseudo-random values (unbounded number of distinct nodes) and as set, prefix chains (every key a proper prefix of the next: d, d/, d/x, d/xy), and discarding sinks that accept only 1 or 3 bytes per write call, at N ~ 10^5, 10^6, 10^7 (thorough 3*10^7; trickle sinks one scale smaller), cache geometries through hook H1 (100x2; thorough also 50000x4 and 1x1) and base-64 keys of length 40; non-trivial = every measurement; distinct = (series, N)",
             assumptions: vec!["the restated, decidable claim is bounded scales, not 'for all N'".into(), "byte counts come from the allocator and are deterministic (no RSS, no wall clock)".into()],
-            floors: vec![("measurements", 6), ("scale-pairs-compared", 2)],
+            floors: vec![("measurements", 15), ("scale-pairs-compared", 5)],
             exhaustive: Some(false),
         },
     )
